@@ -91,7 +91,7 @@ AckUseful == /\ Ackable # {}
                    Ack(p.src, p, WrittenCode(p), "none", "none", k, "ok", s)
 
 (* a perfectly relayable message (verified height, genuine proof) in which exactly one packet field is altered *)
-ForgeAlts == Alts \cap {"amt", "sender", "seq"}
+ForgeAlts == Alts \cap {"amt", "sender", "seq", "feeopt"}
 RecvForged == /\ Receivable # {} /\ ForgeAlts # {}
               /\ \E p \in {Pick(Receivable)} : \E k \in {Pick(GoodRecvHeights(p))} : \E alt \in {Pick(ForgeAlts)} :
                     Recv(p.dst, p, alt, k, "ok", "relayer")
@@ -136,11 +136,12 @@ SendLimitedR ==
        \E k \in {IF cx[2] = "own" THEN "back" ELSE "fwd"} : \E a \in {Pick(Amts)} : \E cl \in {Pick(Calls \ (IF k = "fwd" THEN {} ELSE {"nestok"}))} :
           seq[s][cx[1]] <= MaxSeq /\ Send(s, cx[1], k, a, cl, 0)
 Progress == CommitUseful \/ UpdateUseful \/ RecvUseful \/ AckUseful
+RegenesisR == \E c \in {Pick(Chains)} : Regenesis(c)
 LimNext == \E r \in {Pick(1..10)} :
              IF r <= 2 THEN (IF Pick(1..4) = 1 THEN DisableR ELSE IF Pick(1..3) = 1 THEN ElapseR ELSE EnableR)
              ELSE IF r <= 4 THEN (IF LimOn # {} THEN SendLimitedR \/ CommitR ELSE SendR \/ SendBackR \/ CommitR)
              ELSE IF r <= 9 THEN (IF ENABLED Progress THEN Progress ELSE SendR \/ SendBackR \/ CommitR \/ UpdateGood)
-             ELSE (RecvDup \/ AckDup \/ RecvForged \/ AckForgedCode \/ RecvGood \/ AckGood \/ UpdateR)
+             ELSE (RecvDup \/ AckDup \/ RecvForged \/ AckForgedCode \/ RecvGood \/ AckGood \/ UpdateR \/ RegenesisR)
 
 Useful  == CommitUseful \/ UpdateUseful \/ RecvUseful \/ AckUseful \/ SendR \/ SendBackR \/ SendViaR \/ SendBadCbR \/ SendTwoR
 Hostile == SendR \/ CommitR \/ UpdateR \/ UpdateForged \/ RecvGood \/ RecvR \/ RecvDup \/ AckGood \/ AckR \/ RecvForged \/ AckForged \/ AckForgedCode \/ AckDup \/ RetoggleR \/ NewClientR \/ SendFakeR \/ RecvRev0 \/ AckRev0 \/ RotateR
